@@ -48,6 +48,7 @@ type Gen struct {
 	files       []*ContractFile
 	strUF       bool
 	ghostGlobals map[string]*TypeExpr // pkgPath.name
+	immutables  [][3]string // pkgpath, type, field: struct fields never written after construction (assumed)
 }
 
 func loadGen(repoDir string, patterns []string, extDir string) (*Gen, error) {
@@ -136,6 +137,12 @@ func loadGen(repoDir string, patterns []string, extDir string) (*Gen, error) {
 					}
 					if strings.HasPrefix(t, "autoinline ") {
 						g.inlinePat = append(g.inlinePat, strings.Fields(t)[1:]...)
+					}
+					if strings.HasPrefix(t, "immutable ") {
+						f := strings.Fields(t)
+						if len(f) == 4 {
+							g.immutables = append(g.immutables, [3]string{f[1], f[2], f[3]})
+						}
 					}
 					continue
 				}
